@@ -24,6 +24,7 @@ import PoetryVerif.Proofs.MarkerAlgSoundPyInv
 import PoetryVerif.Proofs.MarkerAlgSoundPr
 import PoetryVerif.Proofs.MarkerAlgSoundInvLists
 import PoetryVerif.Proofs.MarkerAlgSoundFullC
+import PoetryVerif.Proofs.MarkerAlgSoundPrC
 import PoetryVerif.Proofs.PyConvPairFinal
 import PoetryVerif.Proofs.PyConvPairCompat
 import PoetryVerif.Proofs.MarkerPrint
@@ -667,6 +668,45 @@ theorem intersect_union_invert_sound_fullC {ex : List String} (hX : E.extras = s
     refine ⟨this.1, ?_⟩
     rw [holds_is_validate E r (M.good_mono (fun l hl => fullInvLeafC_evaluable hX hE hl) r this.1)]
     exact congrArg _ this.2
+
+/-- **The full domain with `~=` on all three version-like variables, no unproved hypothesis**: as
+`intersect_union_invert_sound_fullC`, plus `platform_release` leaves whose constraints are well-formed over the
+release-number bounds `B` — which includes `platform_release ~= "a.b"` (`[a.b, (a+1).0)`) and `~= "a.b.c"`
+(`[a.b.c, a.(b+1).0)`) when their two bounds are in `B` (`PrCompatLeaf`, `prCompat_verLeaf`) — in environments
+whose `platform_release` is a release number. -/
+theorem intersect_union_invert_sound_fullCR {B : List Version} (hpb : ∀ e ∈ B, PyBound e = true)
+    {ex : List String} (hX : E.extras = some ex) {X Y Z : Nat} (hE : EnvPy E X Y Z) {P : Nat} {Q : List Nat}
+    (hP : E.get? "platform_release" = some (Version.relText (P :: Q))) {a b r : M} :
+    (M.Good (FullLeafCR B E) a → M.Good (FullLeafCR B E) b → mIntersect fuel stk a b = .ok r →
+      M.Good (FullLeafCR B E) r ∧ M.validate E r = .ok (holds E a && holds E b)) ∧
+    (M.Good (FullLeafCR B E) a → M.Good (FullLeafCR B E) b → mUnion fuel stk a b = .ok r →
+      M.Good (FullLeafCR B E) r ∧ M.validate E r = .ok (holds E a || holds E b)) ∧
+    (M.Good (FullInvReadyCR B E) a → a.invert = .ok r →
+      M.Good (FullInvLeafCR B E) r ∧ M.validate E r = .ok (!holds E a)) := by
+  have HP := pairSound_pyC hE
+  refine ⟨fun ha hb h => ?_, fun ha hb h => ?_, fun ha h => ?_⟩
+  · have := intersect_sound_partial (leafSpec_fullCR hpb hX hE hP HP)
+      (fun l hl => fullLeafCR_evaluable hpb hX hE hP hl) ha hb h
+    exact ⟨this.1, this.2.2⟩
+  · have := union_sound_partial (leafSpec_fullCR hpb hX hE hP HP)
+      (fun l hl => fullLeafCR_evaluable hpb hX hE hP hl) ha hb h
+    exact ⟨this.1, this.2.2⟩
+  · have := M.invert_sound_fullCR hpb hX hE hP HP ha h
+    refine ⟨this.1, ?_⟩
+    rw [holds_is_validate E r (M.good_mono (fun l hl => fullInvLeafCR_evaluable hpb hX hE hP hl) r this.1)]
+    exact congrArg _ this.2
+
+/-- `platform_release ~= "5.10"` is built by the constructor, is a leaf of the domain over the bounds `5.10`, `6.0`,
+and inverts to `platform_release < "5.10" or platform_release >= "6.0"` -/
+example : mkSingle "platform_release" "~=5.10" false = .ok (prCompatOf 5 [10] (litV 6 [0])) ∧
+    PrCompatLeaf [litV 5 [10], litV 6 [0]] (.single (prCompatOf 5 [10] (litV 6 [0]))) ∧
+    Leaf.invert (.single (prCompatOf 5 [10] (litV 6 [0]))) =
+      .ok (mkUnion [.leaf (.single (prLeafOf .lt "<" 5 [10])), .leaf (.single (prLeafOf .ge ">=" 6 [0]))]) := by
+  have t1 : "~=" ++ Version.relText [5, 10] = "~=5.10" := by decide
+  refine ⟨?_, Or.inl ⟨5, 10, by simp, by simp, rfl⟩, invert_prCompat 5 [10] 6 [0]⟩
+  have := mkSingle_prCompat 5 [10]
+  rw [compatHigh2, t1] at this
+  exact this
 
 /-- **Inversion preserves truth on every marker of single markers in C06's agreement domain** — no closure
 under merging is needed (inversion never merges), so this covers item classes outside the intersect/union
